@@ -21,6 +21,8 @@ import (
 	"time"
 
 	sdk "github.com/cosmos/cosmos-sdk/types"
+	didtypes "github.com/medibloc/panacea-core/v2/x/did/types"
+	abci "github.com/cometbft/cometbft/abci/types"
 	didcrypto "github.com/medibloc/panacea-core/v2/x/did/client/crypto"
 )
 
@@ -235,7 +237,7 @@ func raceChildMain(args []string) int {
 		viol = append(viol, fmt.Sprintf(f, a...))
 		vmu.Unlock()
 	}
-	var nQueries, nMsgOps, nKsOps, nBlocks int64
+	var nQueries, nMsgOps, nKsOps, nBlocks, nSims int64
 
 	// (a) shared message values: validation, sign bytes, signer extraction from several goroutines
 	g := &Gen{rng: NewPRNG(*seed), env: env, prop: "C16", tier: "quick", specs: map[int]*TxSpec{}, built: map[int][]sdk.Msg{}, plan: NewModel()}
@@ -265,6 +267,24 @@ func raceChildMain(args []string) int {
 					}
 					if lm, ok := m.(interface{ GetSignBytes() []byte }); ok {
 						_ = lm.GetSignBytes()
+					}
+					// DID ownership proofs: signing and verification bytes
+					var doc *didtypes.DIDDocument
+					switch t := m.(type) {
+					case *didtypes.MsgCreateDIDRequest:
+						doc = t.Document
+					case *didtypes.MsgUpdateDIDRequest:
+						doc = t.Document
+					}
+					if doc != nil {
+						k := env.DidKeys[r.Intn(len(env.DidKeys))]
+						seq := uint64(r.Intn(5))
+						if sig, err := didtypes.Sign(doc, seq, k); err == nil {
+							if _, ok := didtypes.Verify(sig, doc, seq, k.PubKey()); !ok {
+								addViol("class=did.proof_unstable a DID proof made and verified by the same goroutine over the same document and sequence does not verify (shared mutable state in the signing-bytes code)")
+							}
+						}
+						_ = doc.GetSignBytes()
 					}
 				}()
 				atomic.AddInt64(&nMsgOps, 1)
@@ -350,6 +370,45 @@ func raceChildMain(args []string) int {
 		}
 		qstop := int32(0)
 		var qwg sync.WaitGroup
+		var poolMu sync.Mutex
+		var pool [][]byte
+		prevOnCommit := e.OnCommit
+		e.OnCommit = func(h int64) {
+			prevOnCommit(h)
+			poolMu.Lock()
+			for _, tx := range e.Blocks[h-1].B.Txs {
+				pool = append(pool, append([]byte(nil), tx...))
+			}
+			poolMu.Unlock()
+		}
+		for w := 0; w < 2; w++ {
+			qwg.Add(1)
+			go func(w int) {
+				defer qwg.Done()
+				r := NewPRNG(*seed + uint64(w)*53 + uint64(round)*17)
+				for atomic.LoadInt32(&qstop) == 0 {
+					poolMu.Lock()
+					var tx []byte
+					if len(pool) > 0 {
+						tx = pool[r.Intn(len(pool))]
+					}
+					poolMu.Unlock()
+					if tx == nil || atomic.LoadInt32(&appReady) == 0 {
+						time.Sleep(time.Millisecond)
+						continue
+					}
+					func() {
+						defer func() { recover() }()
+						if r.Chance(0.5) {
+							_, _, _ = e.R[0].App.Simulate(tx)
+						} else {
+							e.R[0].App.CheckTx(abci.RequestCheckTx{Tx: tx, Type: abci.CheckTxType_New})
+						}
+					}()
+					atomic.AddInt64(&nSims, 1)
+				}
+			}(w)
+		}
 		for w := 0; w < 3; w++ {
 			qwg.Add(1)
 			go func(w int) {
@@ -434,10 +493,16 @@ func raceChildMain(args []string) int {
 		addViol("class=keystore.deadlock key-store goroutines did not finish within 90 s after being told to stop")
 	}
 	os.RemoveAll(ksDir)
+	seenV := map[string]bool{}
 	for _, v := range viol {
+		cls := strings.SplitN(v, " ", 2)[0]
+		if seenV[cls] {
+			continue
+		}
+		seenV[cls] = true
 		fmt.Println("RACECHILD-VIOLATION " + v)
 	}
-	fmt.Printf("RACECHILD-STAT concurrent_queries=%d\nRACECHILD-STAT shared_message_ops=%d\nRACECHILD-STAT keystore_ops=%d\nRACECHILD-STAT blocks=%d\n", nQueries, nMsgOps, nKsOps, nBlocks)
+	fmt.Printf("RACECHILD-STAT concurrent_queries=%d\nRACECHILD-STAT shared_message_ops=%d\nRACECHILD-STAT keystore_ops=%d\nRACECHILD-STAT blocks=%d\nRACECHILD-STAT concurrent_simulate_checktx=%d\n", nQueries, nMsgOps, nKsOps, nBlocks, nSims)
 	return 0
 }
 
